@@ -118,6 +118,9 @@ func decorate(rng *rand.Rand, insts map[string]spec.Inst, zones []string, timeou
 
 func zoneSet(rng *rand.Rand, zoneAware bool) []string {
 	n := rng.IntN(5) // 0..4 zones
+	if rng.IntN(4) == 0 {
+		n = 5 + rng.IntN(5) // 5..9 zones: the lookup uses heap-allocated per-zone counters above 5 zones
+	}
 	var z []string
 	for i := 0; i < n; i++ {
 		z = append(z, fmt.Sprintf("z%d", i))
